@@ -200,6 +200,9 @@ func drawRingCase(t *rapid.T) (Case, string) {
 		c.Box = gen.FromBound(box)
 		c.G = gen.G{V: finishRing(t, ps)}
 		c.SplitX, c.SplitY = gen.F(f.x.at(sx)), gen.F(f.y.at(sy))
+		if fname == "plain" {
+			c = signedZeros(t, c)
+		}
 		return rescale(t, c), name + " / " + fname
 	}
 	if class >= 10 {
@@ -301,7 +304,11 @@ func drawFarRing(t *rapid.T, c Case) Case {
 
 // scaleGeom multiplies every coordinate of g by 2^k (exact).
 func scaleGeom(g orb.Geometry, k int) orb.Geometry {
-	pt := func(p orb.Point) orb.Point { return orb.Point{math.Ldexp(p[0], k), math.Ldexp(p[1], k)} }
+	return mapGeom(g, func(p orb.Point) orb.Point { return orb.Point{math.Ldexp(p[0], k), math.Ldexp(p[1], k)} })
+}
+
+// mapGeom applies pt to every vertex of g, keeping kinds, nesting and nil-ness.
+func mapGeom(g orb.Geometry, pt func(orb.Point) orb.Point) orb.Geometry {
 	pts := func(ps []orb.Point) []orb.Point {
 		if ps == nil {
 			return nil
@@ -346,7 +353,7 @@ func scaleGeom(g orb.Geometry, k int) orb.Geometry {
 		out := make(orb.MultiPolygon, len(v))
 		for i := range v {
 			if v[i] != nil {
-				out[i] = scaleGeom(v[i], k).(orb.Polygon)
+				out[i] = mapGeom(v[i], pt).(orb.Polygon)
 			}
 		}
 		return out
@@ -356,13 +363,43 @@ func scaleGeom(g orb.Geometry, k int) orb.Geometry {
 		}
 		out := make(orb.Collection, len(v))
 		for i := range v {
-			out[i] = scaleGeom(v[i], k)
+			out[i] = mapGeom(v[i], pt)
 		}
 		return out
 	case orb.Bound:
 		return orb.Bound{Min: pt(v.Min), Max: pt(v.Max)}
 	}
 	return g
+}
+
+// signedZeros (one lattice case in eight): translate the case so that the box's
+// lower left corner is the origin, then give every zero coordinate a random
+// sign: -0 and +0 are the same number on an edge, whatever helper compares them.
+func signedZeros(t *rapid.T, c Case) Case {
+	if rapid.IntRange(0, 7).Draw(t, "zeros") != 0 {
+		return c
+	}
+	ox, oy := float64(c.Box.Min[0]), float64(c.Box.Min[1])
+	mode := rapid.IntRange(0, 2).Draw(t, "zsign") // 0: all -0, 1: box +0 geometry -0, 2: alternate
+	k := 0
+	z := func(v float64, isBox bool) float64 {
+		if v != 0 {
+			return v
+		}
+		k++
+		if mode == 0 || (mode == 1 && !isBox) || (mode == 2 && k%2 == 0) {
+			return math.Copysign(0, -1)
+		}
+		return 0
+	}
+	mv := func(p gen.P, isBox bool) gen.P {
+		return gen.P{gen.F(z(float64(p[0])-ox, isBox)), gen.F(z(float64(p[1])-oy, isBox))}
+	}
+	c.Box.Min, c.Box.Max = mv(c.Box.Min, true), mv(c.Box.Max, true)
+	c.SplitX, c.SplitY = gen.F(float64(c.SplitX)-ox), gen.F(float64(c.SplitY)-oy)
+	c.G = gen.G{V: mapGeom(c.G.V, func(p orb.Point) orb.Point { return mv(gen.FromPt(p), false).Pt() })}
+	stats.Class("signed zeros on the box edges")
+	return c
 }
 
 // rescale multiplies a whole case by 2^k, k in -60..60, one time in four: an
@@ -417,7 +454,93 @@ func drawGeometryCase(t *rapid.T) (Case, string) {
 	c.SplitX = gen.F((box.Min[0] + box.Max[0]) / 2)
 	c.SplitY = gen.F((box.Min[1] + box.Max[1]) / 2)
 	name := ""
-	switch rapid.IntRange(0, 3).Draw(t, "gclass") {
+	switch rapid.IntRange(0, 4).Draw(t, "gclass") {
+	case 4: // multi-geometries and collections of point-like members placed on the box's corners and
+		// edges, inside and outside: the bound of such a member is degenerate (zero width and height,
+		// possibly the zero bound at the origin), which is where bound helpers have their corner cases
+		name = "geometry:point-like members at corners and edges"
+		special := func() orb.Point {
+			var p orb.Point
+			for d := 0; d < 2; d++ {
+				lo, hi := box.Min[d], box.Max[d]
+				p[d] = []float64{lo, hi, (lo + hi) / 2, lo - (hi - lo), hi + (hi - lo)}[rapid.IntRange(0, 4).Draw(t, "pos")]
+			}
+			return p
+		}
+		var member func(depth int) orb.Geometry
+		member = func(depth int) orb.Geometry {
+			p := special()
+			switch k := rapid.IntRange(0, 8).Draw(t, "mk"); {
+			case k == 0:
+				return p
+			case k == 1:
+				return orb.MultiPoint{p}
+			case k == 2:
+				return orb.LineString{p, p}
+			case k == 3:
+				return orb.LineString{p, special()}
+			case k == 4:
+				return orb.Ring{p, p, p, p}
+			case k == 5:
+				return orb.Polygon{orb.Ring{p, p, p, p}}
+			case k == 6:
+				return orb.Bound{Min: p, Max: p}
+			case k == 7 && depth < 2:
+				c := orb.Collection{}
+				for i, n := 0, rapid.IntRange(1, 3).Draw(t, "nn"); i < n; i++ {
+					c = append(c, member(depth+1))
+				}
+				return c
+			}
+			return orb.MultiLineString{{p, p}, {special(), special()}}
+		}
+		n := rapid.IntRange(2, 4).Draw(t, "members")
+		switch rapid.IntRange(0, 3).Draw(t, "wrap") {
+		case 0:
+			mp := orb.MultiPoint{}
+			for i := 0; i < n; i++ {
+				mp = append(mp, special())
+			}
+			c.G = gen.G{V: mp}
+		case 1:
+			mls := orb.MultiLineString{}
+			for i := 0; i < n; i++ {
+				p := special()
+				mls = append(mls, orb.LineString{p, p})
+			}
+			c.G = gen.G{V: mls}
+		case 2:
+			mpg := orb.MultiPolygon{}
+			for i := 0; i < n; i++ {
+				p := special()
+				mpg = append(mpg, orb.Polygon{orb.Ring{p, p, p, p}})
+			}
+			c.G = gen.G{V: mpg}
+		default:
+			col := orb.Collection{}
+			for i := 0; i < n; i++ {
+				col = append(col, member(0))
+			}
+			c.G = gen.G{V: col}
+		}
+		if rapid.Bool().Draw(t, "origin") { // put the box's lower left corner at the origin (exact on the lattice; a float box moves by a rounded amount, which is as good)
+			o := box.Min
+			mv := func(p orb.Point) orb.Point { return orb.Point{p[0] - o[0], p[1] - o[1]} }
+			nb := orb.Bound{Min: mv(box.Min), Max: mv(box.Max)}
+			c.G = gen.G{V: mapGeom(c.G.V, func(p orb.Point) orb.Point {
+				q := mv(p)
+				for d := 0; d < 2; d++ { // keep "on the edge" exact after the move
+					if p[d] == box.Min[d] {
+						q[d] = nb.Min[d]
+					} else if p[d] == box.Max[d] {
+						q[d] = nb.Max[d]
+					}
+				}
+				return q
+			})}
+			c.Box = gen.FromBound(nb)
+			c.SplitX, c.SplitY = gen.F((nb.Min[0]+nb.Max[0])/2), gen.F((nb.Min[1]+nb.Max[1])/2)
+		}
 	case 0: // polygon with holes
 		name = "geometry:polygon with holes"
 		p := orb.Polygon{}
@@ -442,11 +565,12 @@ func drawGeometryCase(t *rapid.T) (Case, string) {
 		if lattice {
 			coord = gen.Mix(rapid.Custom(func(t *rapid.T) float64 { return float64(rapid.IntRange(0, 12).Draw(t, "h")) / 2 }))
 		}
-		o := gen.Opts{Coord: coord, Empty: true, EmptyMembers: true, NilSlices: true, MaxDepth: 2, MaxLen: 5}
+		o := gen.Opts{Coord: coord, Empty: true, EmptyMembers: true, NilSlices: true, Degenerate: true, MaxDepth: 2, MaxLen: 5}
 		c.G = gen.G{V: gen.Geom(o).Draw(t, "g")}
 	}
 	if lattice {
 		name += " / lattice"
+		c = signedZeros(t, c)
 	} else {
 		name += " / float"
 	}
